@@ -119,7 +119,38 @@ def solo(host, arch, mode, policy_path):
     return _solo_cache[k]
 
 
+def eval_real(case):
+    """Engine B: real process, real worker threads racing freely over loopback TCP."""
+    archs, mode, threads = [a for a in case['archs'] if ARCH[a] is not None], case['mode'], case['threads']
+    peers = [fakenet.peer_from_spec(dict(ARCH[a], banner=ARCH[a].get('banner', 'SSH-2.0-OpenSSH_9.3'))) for a in archs]
+    fails = []
+    with drive.RealServers(peers) as rs:
+        targets = ['127.0.0.1:%d' % p for p in rs.ports]
+        def run(tl, k):
+            tf = drive.tmpfile('\n'.join(tl) + '\n')
+            try:
+                return drive.run_subprocess([x for x in MODES[mode] if x is not None] + ['--skip-rate-test', '--threads', str(k), '-T', tf])
+            finally:
+                os.unlink(tf)
+        solos = {}
+        for t in targets:
+            r = run([t], 1)
+            solos[t] = blocks_of(r.out, mode)
+        r = run(targets, threads)
+    got = blocks_of(r.out, mode)
+    if got is None:
+        fails.append(['real-process-multi-target-output-unparseable', r.out[:200]])
+    else:
+        for t, a in zip(targets, archs):
+            want = (solos[t] or {}).get(t)
+            if want is not None and got.get(t) != want:
+                fails.append(['real-process-result-of-%s-depends-on-other-targets' % a, 'mode %s threads %d archs %r: %s' % (mode, threads, archs, _diff(want, got.get(t), mode))])
+    return mkres(case, nt=len(set(archs)) > 1, classes=['engine-B', 'mode:' + mode, 'threads:%d' % threads], fails=fails)
+
+
 def eval_case(case):
+    if case.get('kind') == 'real':
+        return eval_real(case)
     archs, mode, threads = case['archs'], case['mode'], case['threads']
     hosts_archs = [('t%d' % i, a) for i, a in enumerate(archs)]
     policy_path = None
@@ -219,6 +250,11 @@ def run(ctx):
     for a, b, c in rng.sample(list(itertools.permutations(ORDER, 3)), 30 if ctx.quick else 400):
         free.append({'archs': [a, b, c], 'mode': rng.choice(['text', 'json']), 'threads': rng.choice([2, 3]), 'choices': None})
     ctx.map(free)
+    real = []
+    for tr in rng.sample(list(itertools.permutations([a for a in ORDER if a not in ('refuse', 'ssh1')], 3)), 8 if ctx.quick else 120):
+        real.append({'kind': 'real', 'archs': list(tr) + [tr[0]], 'mode': rng.choice(['text', 'json']), 'threads': rng.choice([1, 2, 4])})
+    ctx.map(real, chunk=1)
+    ctx.note(traces_validated_against_impl=len(real))
     ctx.note(archetypes=ORDER, ordered_pairs=len(pairs))
     return ctx.finish('exploration', 'ordered pairs (all) / triples (thorough: half of all) / Hypothesis histories of 2-4 target archetypes (one per channel through which a scan edits the rating tables, plus SSH-1 and a refusing host) x text / JSON / policy output x 1-3 worker threads x harness-owned schedules (generated choice lists decide which waiting worker proceeds at each worker start and each connection event) plus free-running runs; oracle = byte-identical block of a fresh single-target run; non-trivial = a worker thread reused for a different archetype, or interleaved connection events',
                       assumptions=['the wrapper around target_worker_thread and the connection gate only delay threads, they do not change what any thread computes'])
